@@ -65,7 +65,46 @@ def units(tier, seed):
     us += [{"kind": "after-merge", "tier": tier, "first": i} for i in range(len(seq_alphabet(tier, 3)))]
     for kind in ("prefix_map", "priority_map", "reverse_map", "jsonld"):
         us.extend({"kind": kind, "part": i, "of": 8} for i in range(8))
+    seqs = sweep_sequences()
+    for ch in chunks(seqs, 24):
+        us.append({"kind": "sweep", "seqs": ch})
     return us
+
+
+def sweep_sequences():
+    """Breadth sweeps (mc/sweeps.py): every token in a clashing and in a clash-free role, twin names registered as
+    different strings, near-miss variants that must NOT clash, and collections scaled by a count."""
+    from .. import sweeps
+    from ..refmodel import mrec
+
+    out = []
+    for t in sweeps.TOKENS:
+        out.append(sweeps.token_config(t))                                                 # valid
+        out.append([mrec("p" + t, "u1"), mrec("r", "u2", ["p" + t])])                    # canonical vs synonym, CURIE side
+        out.append([mrec("r", "u2", ["p" + t]), mrec("p" + t, "u1")])
+        out.append([mrec("a", "u" + t), mrec("b", "w", [], ["u" + t])])                   # canonical vs synonym, URI side
+        out.append([mrec("a", "w", [], ["u" + t]), mrec("b", "z", [], ["u" + t])])        # synonym vs synonym
+        out.append([mrec(t, "u1"), mrec("zb", "u2"), mrec("zc", "u3", [t])])                # the token alone as a prefix
+        for v in sweeps.variants("p" + t)[:6]:
+            out.append([mrec("p" + t, "u1"), mrec("r", "u2", [v])])                       # different strings: no clash
+            out.append([mrec("p" + t, "u1", [v])])                                        # ... also inside one record
+        for v in sweeps.variants("u" + t)[:6]:
+            out.append([mrec("a", "u" + t), mrec("b", "w", [], [v])])
+    out.extend(sweeps.twin_configs())
+    for a, b in sweeps.TWINS:
+        out.append([mrec(a, "u1", [b])])
+        out.append([mrec("a", "u" + a, [], ["u" + b])])
+    out.append(list(sweeps.REALISTIC))
+    for n in sweeps.COUNTS:
+        base = [mrec(f"p{i}", f"u{i}/", [f"s{i}"], [f"v{i}/"]) for i in range(n)]
+        out.append(base)                                                                   # valid, n records
+        for k in sorted({0, n // 2, n - 1}):
+            out.append(base + [mrec("late", "late/", [f"s{k}"])])                        # one clash, position k
+            out.append(base[:k] + [mrec("late", "late/", [], [f"u{k}/"])] + base[k:])
+    for n in (2, 3, 5, 8, 10, 11, 12, 14):
+        out.append([mrec(f"p{i}", "shared/") for i in range(n)])                          # n(n-1)/2 clash pairs on the URI side
+        out.append([mrec(f"p{i}", f"u{i}/", ["shared"]) for i in range(n)])               # ... on the CURIE side
+    return [recs_to_json(c) for c in out]
 
 
 def ckey(k):
@@ -239,6 +278,11 @@ def run_unit(unit, ctx):
                 seq = recs_to_json([a, b, c])
                 for sig, msg in run_after_merge(seq, ctx)[:2]:
                     ctx.violation(f"C04/{sig}", msg, {"kind": "after-merge", "seq": seq})
+    elif kind == "sweep":
+        for seq in unit["seqs"]:
+            ctx.count("sweep_cases")
+            for sig, msg in run_seq(seq, ctx)[:2]:
+                ctx.violation(f"C04/{sig}", msg, {"kind": "seq", "seq": seq})
     elif kind == "self-synonym":
         for sig, msg in run_self(ctx):
             ctx.violation(f"C04/{sig}", msg, {"kind": "self-synonym"})
